@@ -20,7 +20,7 @@ ID = "C12"
 LEVEL = "fault_enumeration"
 RULE = (
     "Hypothesis-generated histories of 1-8 write operations (insert, insert_multiple, hitting update / remove, drop_measurement, remove_all, early-stopping reads in between) on a CSV database with "
-    "the default flush_on_insert=True, strings with CSV metacharacters and occasional rows > 8 KiB; for every operation EVERY I/O step boundary recorded by the I/O layer (write, flush, fsync, truncate, seek, close, "
+    "the default flush_on_insert=True, strings with CSV metacharacters, occasional rows > 8 KiB and occasional batches of 30 KiB rows (> 64 KiB per call; thorough: also batches of ~1 100 rows); for every operation EVERY I/O step boundary recorded by the I/O layer (write, flush, fsync, truncate, seek, close, "
     "temp-file steps, replace / copy sub-steps, reopen) is a crash point: the disk image at that boundary is decoded by a fresh TinyFlux and an independent reader. Non-trivial = crash image taken strictly inside an "
     "operation that changes the file (step index > 0 of the operation and before its last step); distinct by (operation kind, step kind, image digest)."
 )
@@ -35,6 +35,9 @@ def histories(draw):
     pts = gen.points()
     big = st.builds(lambda p, n: dict(p, tags=dict(p["tags"], big="y," * n)), pts, st.integers(4200, 4600))
     anyp = st.one_of(pts, pts, pts, pts, big)
+    # rows of 30-34 KiB (below csv's 128 KiB field limit): a batch of three or more exceeds 64 KiB, the block size of buffered copies
+    huge = st.builds(lambda p, n: dict(p, tags=dict(p["tags"], big="y," * n)), pts, st.integers(15000, 17000))
+    huge_batch = st.lists(st.one_of(huge, huge, huge, pts), min_size=3, max_size=5)
     seed_pts = draw(st.lists(anyp, min_size=0, max_size=5))
     ops = [["insert_multiple", seed_pts, 0, "asis", "db", None, "m1"]] if seed_pts else []
     one = st.one_of(
@@ -45,7 +48,18 @@ def histories(draw):
         gen_ops.op_drop(), gen_ops.op_remove_all(), gen_ops.op_probe_hit(), gen_ops.op_reindex(),
     )
     ops += draw(st.lists(one, min_size=1, max_size=8))
+    if draw(st.integers(0, 11)) == 0:
+        at = draw(st.integers(0, len(ops)))
+        ops.insert(at, ["insert_multiple", draw(huge_batch), draw(st.integers(0, 3)), draw(st.sampled_from(["inorder", "asis"])), "db", None, "m1"])
     return {"ops": ops, "auto_index": draw(st.booleans())}
+
+
+def bulk_case(n, auto):
+    """One insert_multiple of n small points (more than 64 KiB of rows) after a few seed points, then a removal: thorough tier."""
+    t = gen.TIMES[3]
+    base = [{"time": t, "measurement": "m1", "tags": {"a": "x"}, "fields": {"a": 1}}, {"time": t, "measurement": "m2", "tags": {"a": "x,y"}, "fields": {}}]
+    batch = [{"time": gen.TIMES[0], "measurement": "m1" if i % 7 else "a,b", "tags": {"a": "x", "n": "row-%05d" % i}, "fields": {"a": i % 3, "f": 2.0}} for i in range(n)]
+    return {"ops": [["insert_multiple", base, 0, "asis", "db", None, "m1"], ["insert_multiple", batch, 0, "asis", "db", None, "m1"]], "auto_index": auto}
 
 
 def decode_image(img, d, n, auto):
@@ -198,7 +212,7 @@ def validate_with_real_kills(case, snaps, nsteps, ctx, acc, count):
 
 
 def shards(tier):
-    return [{"n": 110 if tier == "quick" else 1500, "kills": 0 if tier == "quick" else (3 if i % 2 == 0 else 0)} for i in range(16)]
+    return [{"n": 110 if tier == "quick" else 1500, "kills": 0 if tier == "quick" else (3 if i % 2 == 0 else 0), "bulk": (1000 + 37 * i) if tier == "thorough" and i % 4 == 1 else 0} for i in range(16)]
 
 
 def run_shard(spec, ctx):
@@ -212,6 +226,11 @@ def run_shard(spec, ctx):
         if info["nontrivial"]:
             acc.sample({"auto_index": case["auto_index"], "history": histcheck.summarize(case["ops"], 6), "crash_points_inside_changing_ops": info["nontrivial"]}, cap=2, every=23)
 
+    if spec.get("bulk"):
+        # crash points inside one large batch (every row boundary of ~1 100 rows): no minimisation, the case is already canonical
+        info = run_case(bulk_case(spec["bulk"], ctx.shard_index % 2 == 0), ctx, acc, 0)
+        acc.cls("bulk_batch_cases")
+        acc.cls("bulk_batch_crash_points", info["nontrivial"])
     v = core.hyp_search(check, histories(), ctx.seed, spec["n"], shrink=False)
     if v is not None:
         raise minimize(v, ctx)
